@@ -216,6 +216,14 @@ def make_event(director, name, flag=False):
     def clear(self):
       director.before(name, "clear")
       return threading.Event.clear(self)
+
+    def wait(self, timeout=None):
+      director.before(name, "wait")
+      if director.free:
+        return threading.Event.wait(self, timeout)
+      if not threading.Event.is_set(self):
+        raise Mismatch("event %s: the schedule grants a wait that would block" % name)
+      return True
   e = EProxy()
   if flag:
     threading.Event.set(e)
